@@ -151,7 +151,7 @@ def _decide(h, meta, cfg, r):
     if not vac:
         # the harness end is statically unreachable. For a normal harness that can be a genuine violation
         # (the code under test panics on every input): replay natively on the pinned inputs to find out.
-        if h['kind'] == 'normal' and _replay_pinned(h, work, r):
+        if h['kind'] == 'normal' and _replay_pinned(h, work, r, cfg['seed']):
             return
         r['verdict'] = 'error'
         r['detail'] = 'vacuity marker not present in the VC (harness end / call site statically unreachable)'
@@ -199,13 +199,13 @@ def _decide(h, meta, cfg, r):
             v = None
             for pl in pins + [[]]:
                 q = lines + pl + [vq, '(check-sat)']
-                v, o, s = engine.run_solver(q, cap if not pl else min(cap, 20), cfg['seed'], any_solver=True)
+                v, o, s = engine.run_solver(q, cap if not pl else min(cap, 60), cfg['seed'], any_solver=True)
                 r['queries'] += 1
                 r['solver_s'] += s
                 if v == 'sat':
                     break
             r['vacuity'] = v
-            if v == 'unsat' and h['kind'] == 'normal' and _replay_pinned(h, work, r):
+            if v == 'unsat' and h['kind'] == 'normal' and _replay_pinned(h, work, r, cfg['seed']):
                 return
             if v != 'sat':
                 vac_fail = ('error' if v == 'unsat' else 'undecided',
@@ -321,15 +321,34 @@ def pinned_value(k, variant):
     return num
 
 
-def _replay_pinned(h, work, r):
-    """native run of the harness on the pinned input sets; a FAIL/PANIC there is a reproduced violation"""
-    for variant in (0, 1):
-        model = {'f64': {k: ('real', Fraction(pinned_value(k, variant), 8)) for k in range(engine.NINPUT)}, 'u64': {}}
-        ipath = os.path.join(work, f'pinned_{variant}.inputs')
+def _candidates(seed, n=40):
+    """candidate concrete inputs for native exploration: the two fixed pinned sets, then seeded pseudo-random
+    small dyadic floats and small integers"""
+    import random
+    rnd = random.Random(1000 + seed)
+    for attempt in range(n):
+        if attempt < 2:
+            f = {k: ('real', Fraction(pinned_value(k, attempt), 8)) for k in range(engine.NINPUT)}
+            u = {k: 0 for k in range(engine.NINPUT)}
+        else:
+            span = rnd.choice([1, 1, 4, 16, 64])
+            f = {k: ('real', Fraction(rnd.randint(-8 * span, 8 * span), 8 * rnd.choice([1, 1, 16]))) for k in range(engine.NINPUT)}
+            top = rnd.choice([1, 3, 8, 40, 70])
+            u = {k: rnd.randint(0, top) for k in range(engine.NINPUT)}
+        yield {'f64': f, 'u64': u}
+
+
+def _replay_pinned(h, work, r, seed=0):
+    """the harness end is unreachable symbolically: look natively for an admitted input on which the code
+    under test fails (panics); a FAIL/PANIC there is a reproduced violation"""
+    for n, model in enumerate(_candidates(seed)):
+        ipath = os.path.join(work, f'pinned_{n}.inputs')
         write_inputs(ipath, model)
         reps = native_replay(h['name'], ipath)
         bad = [(p, res) for p, res, _ in reps if res.startswith('FAIL') or res.startswith('PANIC')]
-        r['replays'].append(dict(mode='pinned', inputs={'pinned_set': variant}, results=[(p, res) for p, res, _ in reps], file=ipath))
+        if n < 2 or bad:
+            r['replays'].append(dict(mode='native-search', inputs=describe_inputs(model) if bad else {'pinned_set': n},
+                                     results=[(p, res) for p, res, _ in reps], file=ipath))
         if bad:
             r['verdict'] = 'violation'
             r['decided_in'] = 'symex (harness end unreachable) + native replay'
@@ -340,28 +359,18 @@ def _replay_pinned(h, work, r):
             shutil.copy(ipath, rp)
             r['replay'] = rp
             return True
+        if all(res.startswith('PASS') for _, res, _ in reps) and reps:
+            return False   # the end IS reachable natively: the symbolic side is inconsistent, not the code
     return False
 
 
 def _reach_witness(h, work, seed):
-    """an input on which the harness reaches its end natively (RESULT PASS), found by trying the two fixed
-    pinned sets and then seeded pseudo-random small values; the vacuity twin is then a ground evaluation
-    on that input instead of a search"""
-    import random
-    rnd = random.Random(1000 + seed)
-    for attempt in range(40):
-        if attempt < 2:
-            f = {k: ('real', Fraction(pinned_value(k, attempt), 8)) for k in range(engine.NINPUT)}
-            u = {k: 0 for k in range(engine.NINPUT)}
-        else:
-            span = rnd.choice([1, 4, 16, 64])
-            f = {k: ('real', Fraction(rnd.randint(-8 * span, 8 * span), 8)) for k in range(engine.NINPUT)}
-            top = rnd.choice([1, 3, 8, 40, 70])
-            u = {k: rnd.randint(0, top) for k in range(engine.NINPUT)}
-        model = {'f64': f, 'u64': u}
+    """an input on which the harness reaches its end natively, found among the candidate inputs; the vacuity
+    twin is then a ground evaluation on that input instead of a search"""
+    exe = os.path.join(BUILD, 'native', 'debug', 'vhreplay')
+    for model in _candidates(seed):
         ipath = os.path.join(work, 'reach.inputs')
         write_inputs(ipath, model)
-        exe = os.path.join(BUILD, 'native', 'debug', 'vhreplay')
         try:
             p = subprocess.run([exe, h['name'], ipath], capture_output=True, text=True, timeout=20)
         except subprocess.TimeoutExpired:
